@@ -40,6 +40,7 @@ type sbAction struct {
 	Dur     int    `json:"d,omitempty"` // index into sbDurations (advance)
 	Fail    bool   `json:"f,omitempty"` // ping: make it fail
 	Burst   bool   `json:"b,omitempty"` // do not settle after this action
+	AtPing  bool   `json:"p,omitempty"` // submit: the client gives up at the moment the scheduler health-checks the loaded runner (needsReload's Ping)
 }
 
 type sbCase struct {
@@ -57,6 +58,7 @@ type sbCase struct {
 	Gated       []bool     `json:"gated"`     // per model: its loads wait for an explicit loadok/loadfail action
 	AutoFail    []bool     `json:"auto_fail"` // outcome script of the loads of non-gated models (by birth order)
 	CloseUs     int        `json:"close_us"`  // how long a runner takes to exit (real microseconds)
+	CloseErr    []bool     `json:"close_err,omitempty"` // by instance id: Close does its work but reports an error (the real one returns Process.Kill's, e.g. "process already finished" after a crash)
 	Perturb     uint32     `json:"perturb"`   // 0 = none; otherwise seed of the schedule perturbation at the scheduler's log points
 	Actions     []sbAction `json:"actions"`
 }
@@ -97,6 +99,9 @@ func sbGen(t *rapid.T) sbCase {
 	}
 	c.AutoFail = rapid.SliceOfN(rapid.SampledFrom([]bool{false, false, false, true}), 6, 6).Draw(t, "auto_fail")
 	c.CloseUs = rapid.SampledFrom([]int{0, 0, 40, 150, 400}).Draw(t, "close_us")
+	if rapid.IntRange(0, 2).Draw(t, "has_close_err") == 0 {
+		c.CloseErr = rapid.SliceOfN(rapid.SampledFrom([]bool{true, true, false}), 4, 4).Draw(t, "close_err")
+	}
 	if rapid.IntRange(0, 2).Draw(t, "perturbed") > 0 {
 		c.Perturb = rapid.Uint32Range(1, 1<<30).Draw(t, "perturb")
 	}
@@ -110,6 +115,7 @@ func sbGen(t *rapid.T) sbCase {
 			a.Model = rapid.IntRange(0, c.NModels-1).Draw(t, "model")
 			a.Variant = rapid.SampledFrom([]int{0, 0, 0, 0, 1, 2, 3, 4, 5, 6, 6}).Draw(t, "variant")
 			a.Keep = rapid.IntRange(0, len(sbKeepReq)-1).Draw(t, "keep")
+			a.AtPing = rapid.IntRange(0, 9).Draw(t, "at_ping") == 0
 		case "finish", "cancel", "loadok", "loadfail":
 			a.Idx = rapid.IntRange(0, 5).Draw(t, "idx")
 		case "ping":
@@ -231,6 +237,23 @@ type sbSrv struct {
 func (s *sbSrv) Ping(ctx context.Context) error {
 	sbPerturbPoint("fake: ping") // called by needsReload with the runner's mutex held
 	s.eng.mu.Lock()
+	// clients that give up exactly now: the scheduler has taken their request off the queue (its cancelled-check is
+	// behind it) and is evaluating the loaded runner for it
+	var gone []*sbReq
+	for _, r := range s.eng.reqs {
+		if r.atPing && r.model == s.model && r.replies == 0 && !r.finished {
+			r.finished, r.cancelled = true, true
+			s.eng.logf("cancel req=%d (during the health check of inst=%d)", r.id, s.id)
+			s.eng.flag("cancel_unreplied")
+			s.eng.flag("cancel_during_health_check")
+			gone = append(gone, r)
+		}
+	}
+	s.eng.mu.Unlock()
+	for _, r := range gone {
+		r.cancel()
+	}
+	s.eng.mu.Lock()
 	defer s.eng.mu.Unlock()
 	if !s.loadOK || s.pingFail || s.closeBegun > 0 {
 		return errors.New("fake: runner not responding")
@@ -314,7 +337,14 @@ func (s *sbSrv) Close() error {
 	e.mu.Lock()
 	s.closes++
 	e.closeCount++
+	fail := len(e.c.CloseErr) > 0 && e.c.CloseErr[s.id%len(e.c.CloseErr)]
+	if fail {
+		e.flag("close_reports_error")
+	}
 	e.mu.Unlock()
+	if fail {
+		return errors.New("os: process already finished")
+	}
 	return nil
 }
 
@@ -333,6 +363,7 @@ type sbReq struct {
 	finished  bool // harness cancelled the context (finish or cancel), logged before the cancel
 	cancelled bool // cancelled before any reply had been observed
 	expectI   *sbSrv
+	atPing    bool // cancelled by the fake runner's Ping: after the scheduler has dequeued the request, before the hand-off
 	keepInf   bool // the keep-alive this request asks for (its own, or the configured one if it names none) is infinite
 }
 
@@ -707,7 +738,7 @@ func (e *sbEngine) submit(a sbAction) {
 		opts.UseMMap = &b
 	}
 	ctx, cancel := context.WithCancel(context.Background())
-	r := &sbReq{id: len(e.reqs), model: m, variant: a.Variant, opts: opts, mdl: mdl, cancel: cancel}
+	r := &sbReq{id: len(e.reqs), model: m, variant: a.Variant, opts: opts, mdl: mdl, cancel: cancel, atPing: a.AtPing}
 	if k := sbKeepReq[a.Keep%len(sbKeepReq)]; k != nil {
 		r.keepInf = k.Duration == time.Duration(math.MaxInt64)
 	} else {
